@@ -303,6 +303,37 @@ func gostringIssues(rs *Resid, fn *ast.FuncDecl, maxIter int) ([]sideIssue, int,
 		}
 		return true
 	})
+	// a component that is known to be non-nil is assigned on every path: under `if X != nil { … }` each path through the body
+	// prints `X = …` (skipping it, e.g. because the pointee is the zero value, rebuilds a nil pointer)
+	ast.Inspect(fn.Body, func(n ast.Node) bool {
+		ifs, ok := n.(*ast.IfStmt)
+		if !ok {
+			return true
+		}
+		be, ok := unparen(ifs.Cond).(*ast.BinaryExpr)
+		if !ok || be.Op != token.NEQ || !isNilLit(be.Y) {
+			return true
+		}
+		target := exprStr(be.X)
+		if target == fieldNames(fn.Type.Params)[0] {
+			return true // the root value: handled by the nil-branch rule
+		}
+		bodyPaths, und2 := stage2Paths(rs, ifs.Body, 1)
+		if und2 != "" {
+			return true
+		}
+		for _, p := range bodyPaths {
+			if strings.Contains(p.text, target+" = ") || strings.Contains(p.text, target+" := ") {
+				continue
+			}
+			k := "nonnil-skip:" + target + strings.Join(p.conds, "&&")
+			if !seenErr[k] {
+				seenErr[k] = true
+				iss(ifs, "nonnil-skipped", "%s is known to be non-nil but on the path [%s] no assignment to it is printed: the rebuilt value has nil there, so the round trip does not give an equal value", target, strings.Join(p.conds, " && "))
+			}
+		}
+		return true
+	})
 	// type names inside printed text come from the package-qualifying (bypass) printer; the Go signature from the ordinary one
 	printed := map[string]bool{}
 	ast.Inspect(fn.Body, func(n ast.Node) bool {
